@@ -1,5 +1,5 @@
 """C14 -- Slobodeckij seminorm quadratures (DESIGN.md E1/E5)."""
-from .. import normsrules, quadalg
+from .. import normsrules, quadalg, effects
 
 LEVEL = 'other'
 META = {
@@ -28,6 +28,8 @@ def run(prog, report, tier):
     normsrules.check_singular_measure(prog, report)
     quadalg.check_layout(prog, report)
     quadalg.check_affine(prog, report)
+    normsrules.check_order_defaults(prog, report)
+    effects.check_memo(prog, report, files={'src/norms.py', 'src/quadrature.py'})
     report.assumptions.append(
         'weights of one sign and nodes in (0,1) (E1) give non-negativity; '
         'vanishing on constants and quadratic scaling follow from the '
